@@ -7,6 +7,7 @@ import (
 	"fmt"
 	"os"
 	"path/filepath"
+	"runtime"
 	"runtime/pprof"
 	"sort"
 	"strings"
@@ -81,6 +82,18 @@ type WorkerResult struct {
 
 const planHashCap = 250000
 
+// oneProcessor: a plain-build scenario runs its tasks strictly one at a time on
+// channels, so one P is all it can use — and with one P the per-P structures of
+// the runtime that code under test may lean on (sync.Pool's private slots, the
+// order in which runnable goroutines are picked) behave the same in every
+// execution, which a verdict that depends on them needs in order to replay.
+// (Not for the -race flavour, whose hand-off blocks in raw system calls.)
+func oneProcessor(info *scen.Info) {
+	if info.Build == "plain" {
+		runtime.GOMAXPROCS(1)
+	}
+}
+
 func setAddressSpaceLimit(bytes uint64) {
 	if bytes == 0 {
 		return
@@ -124,6 +137,7 @@ func cmdWorker(args []string) int {
 		return 2
 	}
 	setAddressSpaceLimit(info.AddressSpaceLimit)
+	oneProcessor(info)
 	sc := info.Sc
 	status, err := engine.OpenStatus(filepath.Join(*dir, fmt.Sprintf("status-%d", *worker)))
 	if err != nil {
@@ -242,6 +256,7 @@ func cmdExec(args []string) int {
 		return 2
 	}
 	setAddressSpaceLimit(info.AddressSpaceLimit)
+	oneProcessor(info)
 	raw, err := os.ReadFile(*planFile)
 	if err != nil {
 		fmt.Fprintln(os.Stderr, "harness:", err)
@@ -311,6 +326,7 @@ func cmdFingerprints(args []string) int {
 		defer pprof.StopCPUProfile()
 	}
 	setAddressSpaceLimit(info.AddressSpaceLimit)
+	oneProcessor(info)
 	for idx := *from; idx < *to; idx++ {
 		seed := RunSeed(*batch, *scName, idx)
 		plan := info.Sc.Generate(seed, tierFor(*tier, idx))
